@@ -230,6 +230,9 @@ func TestVerifToFileDiscover(t *testing.T) {
 			fmt.Printf("ORACLE-FAIL disc case=%d the discoverer never became idle (pattern %q explicit=%v)\n", ci, pattern, explicit)
 			fails++
 			hist["hang:settle"]++
+			if hist["hang:term"]+hist["hang:settle"] >= 2 {
+				break
+			}
 			continue
 		}
 		// ops: one per updateTopics call
@@ -289,7 +292,7 @@ func TestVerifToFileDiscover(t *testing.T) {
 		ok := "1"
 		select {
 		case <-returned:
-		case <-time.After(20 * time.Second):
+		case <-time.After(8 * time.Second):
 			ok = "0"
 		}
 		var termed []string
@@ -308,13 +311,16 @@ func TestVerifToFileDiscover(t *testing.T) {
 				}
 			}
 		} else {
-			fmt.Printf("ORACLE-FAIL disc case=%d run() did not return within 20 s after SIGTERM (a router was never told to terminate, or never ended)\n", ci)
+			fmt.Printf("ORACLE-FAIL disc case=%d run() did not return within 8 s after SIGTERM (a router was never told to terminate, or never ended)\n", ci)
 			fails++
 			hist["hang:term"]++
 		}
 		sort.Strings(termed)
 		out.Case("td term", fmt.Sprintf("returned=%s termed=%s n=%d stopped=%d", ok, strings.Join(termed, ","), len(termed), stopped))
 		lk.ln.Close()
+		if hist["hang:term"]+hist["hang:settle"] >= 2 {
+			break // decisive; every further case would wait for its timeout as well
+		}
 	}
 	for k, v := range hist {
 		fmt.Printf("HIST %s %d\n", k, v)
